@@ -127,12 +127,12 @@ def ref_summary(tape):
         deps = [level[w] for w in on]
         mv = getattr(o, "meas_val", None)
         if mv is not None:
-            deps += [mcm_level[id(m)] for m in mv.measurements]
+            deps += [mcm_level[m] for m in mv.measurements]  # keyed by the MidMeasure itself (value hash): copies of a tape shallow-copy it
         lv = 1 + max(deps, default=0)
         for w in on:
             level[w] = lv
         if type(o).__name__ in ("MidMeasure", "MidMeasureMP", "PauliMeasure"):
-            mcm_level[id(o)] = lv
+            mcm_level[o] = lv
         depth = max(depth, lv)
     return {"counts": dict(counts), "allowed": allowed, "num_wires": len(wires), "depth": depth, "n_ops": len(ops), "n_meas": len(tape.measurements)}
 
